@@ -1,3 +1,444 @@
 package main
 
-func runExtract(repo, dir string) {}
+// Fact extractor (DESIGN §3.1): regenerates lean/Qfx/Gen/*.lean from the CURRENT sources of the repository with
+// go/parser + go/ast only.  What is extracted is semantic, not syntactic: sets, tables, constants and the
+// source-order skeleton of lock operations / protected actions of the send path.  The Lean side either uses
+// these definitions or pins them to the hand-written model by `decide`d obligations (Props files).
+import (
+	"encoding/json"
+	"fmt"
+	"go/ast"
+	"go/parser"
+	"go/token"
+	"os"
+	"path/filepath"
+	"sort"
+	"strconv"
+	"strings"
+)
+
+type genManifest struct {
+	AnchorsMissing []anchorMissing `json:"anchors_missing"`
+	Hashes         map[string]string `json:"hashes"`
+}
+type anchorMissing struct {
+	Name       string   `json:"name"`
+	Properties []string `json:"properties"`
+}
+
+type extractor struct {
+	repo  string
+	fset  *token.FileSet
+	files map[string]*ast.File
+	man   genManifest
+}
+
+func (x *extractor) file(rel string) *ast.File {
+	if f, ok := x.files[rel]; ok {
+		return f
+	}
+	f, err := parser.ParseFile(x.fset, filepath.Join(x.repo, rel), nil, parser.ParseComments)
+	if err != nil {
+		x.files[rel] = nil
+		return nil
+	}
+	x.files[rel] = f
+	return f
+}
+
+func (x *extractor) missing(name string, props ...string) {
+	x.man.AnchorsMissing = append(x.man.AnchorsMissing, anchorMissing{name, props})
+}
+
+// funcDecl finds a function or method by name (and receiver type name, "" for plain functions).
+func (x *extractor) funcDecl(rel, recv, name string) *ast.FuncDecl {
+	f := x.file(rel)
+	if f == nil {
+		return nil
+	}
+	for _, d := range f.Decls {
+		fd, ok := d.(*ast.FuncDecl)
+		if !ok || fd.Name.Name != name {
+			continue
+		}
+		r := ""
+		if fd.Recv != nil && len(fd.Recv.List) > 0 {
+			switch t := fd.Recv.List[0].Type.(type) {
+			case *ast.StarExpr:
+				if id, ok := t.X.(*ast.Ident); ok {
+					r = id.Name
+				}
+			case *ast.Ident:
+				r = t.Name
+			}
+		}
+		if r == recv {
+			return fd
+		}
+	}
+	return nil
+}
+
+// selector chain of a call target, e.g. s.resendMutex.RLock -> ["s","resendMutex","RLock"]
+func selChain(e ast.Expr) []string {
+	switch t := e.(type) {
+	case *ast.Ident:
+		return []string{t.Name}
+	case *ast.SelectorExpr:
+		return append(selChain(t.X), t.Sel.Name)
+	case *ast.CallExpr:
+		return selChain(t.Fun)
+	case *ast.ParenExpr:
+		return selChain(t.X)
+	}
+	return nil
+}
+
+// ---------------------------------------------------------------- lock skeletons (C02)
+
+var protectedCalls = map[string]string{
+	"prepMessageForSend": "prep", "persist": "persist", "sendQueued": "flush", "dropQueued": "dropQ",
+	"EnqueueBytesAndSend": "callEnqueueBytesAndSend", "notifyMessageOut": "notify", "IterateMessages": "iterate",
+	"generateSequenceReset": "callGenerateSequenceReset", "sendBytes": "sendBytes",
+	"SaveMessageAndIncrNextSenderMsgSeqNum": "storeSaveIncr", "IncrNextSenderMsgSeqNum": "storeIncrSender",
+	"NextSenderMsgSeqNum": "readSeq", "Reset": "storeReset",
+}
+
+// skeleton returns the source-order tokens of lock operations and protected actions; deferred unlocks are
+// appended at the end in reverse order of their defer statements.
+func skeleton(fd *ast.FuncDecl) []string {
+	var toks, deferred []string
+	var visit func(n ast.Node) bool
+	lockTok := func(chain []string) string {
+		if len(chain) < 3 {
+			return ""
+		}
+		m, op := chain[len(chain)-2], chain[len(chain)-1]
+		which := ""
+		switch m {
+		case "sendMutex":
+			which = "S"
+		case "resendMutex":
+			which = "R"
+		default:
+			return ""
+		}
+		switch op {
+		case "Lock":
+			return "lock" + which
+		case "Unlock":
+			return "unlock" + which
+		case "RLock":
+			return "rlock" + which
+		case "RUnlock":
+			return "runlock" + which
+		}
+		return ""
+	}
+	visit = func(n ast.Node) bool {
+		switch t := n.(type) {
+		case *ast.DeferStmt:
+			if lt := lockTok(selChain(t.Call.Fun)); lt != "" {
+				deferred = append(deferred, lt)
+				return false
+			}
+		case *ast.AssignStmt:
+			// s.toSend = append(s.toSend, …)  /  s.toSend = s.toSend[:0] / [i:]
+			for _, l := range t.Lhs {
+				ch := selChain(l)
+				if len(ch) >= 2 && ch[len(ch)-1] == "toSend" {
+					kind := "queueWrite"
+					if len(t.Rhs) == 1 {
+						if c, ok := t.Rhs[0].(*ast.CallExpr); ok {
+							if id, ok := c.Fun.(*ast.Ident); ok && id.Name == "append" {
+								kind = "enqueue"
+							}
+						}
+					}
+					// visit the RHS first (it may contain calls), then record the write
+					for _, r := range t.Rhs {
+						ast.Inspect(r, visit)
+					}
+					toks = append(toks, kind)
+					return false
+				}
+			}
+		case *ast.RangeStmt:
+			ch := selChain(t.X)
+			if len(ch) >= 2 && ch[len(ch)-1] == "toSend" {
+				toks = append(toks, "queueRead")
+			}
+		case *ast.CallExpr:
+			ch := selChain(t.Fun)
+			if lt := lockTok(ch); lt != "" {
+				toks = append(toks, lt)
+				return true
+			}
+			if len(ch) > 0 {
+				if tk, ok := protectedCalls[ch[len(ch)-1]]; ok {
+					// arguments first (source order of evaluation), then the call
+					for _, a := range t.Args {
+						ast.Inspect(a, visit)
+					}
+					toks = append(toks, tk)
+					return false
+				}
+			}
+		}
+		return true
+	}
+	ast.Inspect(fd.Body, visit)
+	for i := len(deferred) - 1; i >= 0; i-- {
+		toks = append(toks, deferred[i])
+	}
+	return toks
+}
+
+type skelSpec struct{ file, recv, name, lean string }
+
+var skelFuncs = []skelSpec{
+	{"session.go", "session", "queueForSend", "queueForSend"},
+	{"session.go", "session", "sendInReplyTo", "sendInReplyTo"},
+	{"session.go", "session", "dropAndReset", "dropAndReset"},
+	{"session.go", "session", "dropAndSendInReplyTo", "dropAndSendInReplyTo"},
+	{"session.go", "session", "prepMessageForSend", "prepMessageForSend"},
+	{"session.go", "session", "persist", "persist"},
+	{"session.go", "session", "sendQueued", "sendQueued"},
+	{"session.go", "session", "dropQueued", "dropQueued"},
+	{"session.go", "session", "EnqueueBytesAndSend", "enqueueBytesAndSend"},
+	{"session_state.go", "stateMachine", "SendAppMessages", "sendAppMessages"},
+	{"in_session.go", "inSession", "resendMessages", "resendMessages"},
+	{"in_session.go", "inSession", "generateSequenceReset", "generateSequenceReset"},
+}
+
+// ---------------------------------------------------------------- tables and constants
+
+func (x *extractor) caseList(rel, recv, name string) []string {
+	fd := x.funcDecl(rel, recv, name)
+	if fd == nil {
+		return nil
+	}
+	var out []string
+	ast.Inspect(fd.Body, func(n ast.Node) bool {
+		if cc, ok := n.(*ast.CaseClause); ok {
+			for _, e := range cc.List {
+				switch t := e.(type) {
+				case *ast.Ident:
+					out = append(out, t.Name)
+				case *ast.CallExpr: // bytes.Equal(msgTypeX, m)
+					for _, a := range t.Args {
+						if id, ok := a.(*ast.Ident); ok && strings.HasPrefix(id.Name, "msgType") {
+							out = append(out, id.Name)
+						}
+					}
+				}
+			}
+		}
+		return true
+	})
+	return out
+}
+
+// constants of a file: name -> literal text (ints and strings), iota blocks resolved for plain `= iota` sequences
+func (x *extractor) consts(rel string) map[string]string {
+	res := map[string]string{}
+	f := x.file(rel)
+	if f == nil {
+		return res
+	}
+	for _, d := range f.Decls {
+		gd, ok := d.(*ast.GenDecl)
+		if !ok || (gd.Tok != token.CONST && gd.Tok != token.VAR) {
+			continue
+		}
+		iota := 0
+		useIota := false
+		for _, sp := range gd.Specs {
+			vs := sp.(*ast.ValueSpec)
+			for i, nm := range vs.Names {
+				if i < len(vs.Values) {
+					switch v := vs.Values[i].(type) {
+					case *ast.BasicLit:
+						res[nm.Name] = v.Value
+						useIota = false
+					case *ast.Ident:
+						if v.Name == "iota" {
+							useIota = true
+							res[nm.Name] = strconv.Itoa(iota)
+						}
+					case *ast.CallExpr: // []byte("0"), Tag(8)
+						if len(v.Args) == 1 {
+							if bl, ok := v.Args[0].(*ast.BasicLit); ok {
+								res[nm.Name] = bl.Value
+							}
+						}
+					}
+				} else if useIota {
+					res[nm.Name] = strconv.Itoa(iota)
+				}
+			}
+			iota++
+		}
+	}
+	return res
+}
+
+func leanStrList(xs []string) string {
+	q := make([]string, len(xs))
+	for i, s := range xs {
+		q[i] = strconv.Quote(s)
+	}
+	return "[" + strings.Join(q, ", ") + "]"
+}
+
+// verifySelect: order of the check* calls
+func (x *extractor) verifyOrder() []string {
+	fd := x.funcDecl("session.go", "session", "verifySelect")
+	if fd == nil {
+		return nil
+	}
+	var out []string
+	ast.Inspect(fd.Body, func(n ast.Node) bool {
+		if c, ok := n.(*ast.CallExpr); ok {
+			ch := selChain(c.Fun)
+			if len(ch) > 0 {
+				nm := ch[len(ch)-1]
+				if strings.HasPrefix(nm, "check") || nm == "verifyMsgAgainstAppImpl" || nm == "currentResendState" {
+					out = append(out, nm)
+				}
+			}
+		}
+		return true
+	})
+	return out
+}
+
+// float literals appearing in calls of the form float64(<lit>) * float64(s.HeartBtInt)
+func (x *extractor) peerFactors() []string {
+	var out []string
+	for _, rel := range []string{"session.go", "session_state.go", "in_session.go"} {
+		f := x.file(rel)
+		if f == nil {
+			continue
+		}
+		ast.Inspect(f, func(n ast.Node) bool {
+			if c, ok := n.(*ast.CallExpr); ok {
+				if id, ok := c.Fun.(*ast.Ident); ok && id.Name == "float64" && len(c.Args) == 1 {
+					if bl, ok := c.Args[0].(*ast.BasicLit); ok && bl.Kind == token.FLOAT {
+						out = append(out, bl.Value)
+					}
+				}
+			}
+			return true
+		})
+	}
+	return out
+}
+
+func runExtract(repo, dir string) {
+	x := &extractor{repo: repo, fset: token.NewFileSet(), files: map[string]*ast.File{}}
+	x.man.Hashes = map[string]string{}
+	if err := os.MkdirAll(dir, 0o755); err != nil {
+		panic(err)
+	}
+	var sb strings.Builder
+	sb.WriteString("/- GENERATED by `qfxh extract` from the repository's current sources — do not edit. -/\nnamespace Qfx.Gen\n\n")
+
+	// --- lock skeletons
+	sb.WriteString("/-- source-order lock operations and protected actions of the send path (session.go, in_session.go, session_state.go) -/\n")
+	for _, sp := range skelFuncs {
+		fd := x.funcDecl(sp.file, sp.recv, sp.name)
+		if fd == nil {
+			x.missing("func "+sp.recv+"."+sp.name, "C02")
+			sb.WriteString(fmt.Sprintf("def skel_%s : List String := [\"<missing>\"]\n", sp.lean))
+			continue
+		}
+		sb.WriteString(fmt.Sprintf("def skel_%s : List String := %s\n", sp.lean, leanStrList(skeleton(fd))))
+	}
+	// every function of the three files whose skeleton mentions a queue access or prep/persist/flush/dropQ: who touches the send path at all
+	var touchers []string
+	for _, rel := range []string{"session.go", "in_session.go", "session_state.go", "registry.go", "resend_state.go", "logon_state.go", "logout_state.go", "pending_timeout.go"} {
+		f := x.file(rel)
+		if f == nil {
+			continue
+		}
+		for _, d := range f.Decls {
+			fd, ok := d.(*ast.FuncDecl)
+			if !ok || fd.Body == nil {
+				continue
+			}
+			for _, t := range skeleton(fd) {
+				if t == "enqueue" || t == "queueWrite" || t == "queueRead" || t == "prep" || t == "persist" || t == "flush" || t == "dropQ" || t == "storeSaveIncr" || t == "storeIncrSender" {
+					touchers = append(touchers, fd.Name.Name)
+					break
+				}
+			}
+		}
+	}
+	sort.Strings(touchers)
+	sb.WriteString("\n/-- every function that touches the send queue, numbering or persistence -/\n")
+	sb.WriteString("def sendPathFunctions : List String := " + leanStrList(touchers) + "\n")
+
+	// --- admin message types
+	mt := x.consts("msg_type.go")
+	var admin []string
+	for _, nm := range x.caseList("msg_type.go", "", "isAdminMessageType") {
+		if v, ok := mt[nm]; ok {
+			s, _ := strconv.Unquote(v)
+			admin = append(admin, s)
+		}
+	}
+	if len(admin) == 0 {
+		x.missing("isAdminMessageType", "C01", "C03", "C08")
+	}
+	sort.Strings(admin)
+	sb.WriteString("\n/-- msg_type.go isAdminMessageType -/\ndef adminMsgTypes : List String := " + leanStrList(admin) + "\n")
+
+	// --- verifySelect order
+	vo := x.verifyOrder()
+	if len(vo) == 0 {
+		x.missing("session.verifySelect", "C06")
+	}
+	sb.WriteString("\n/-- session.go verifySelect: the checks in source order -/\ndef verifyOrder : List String := " + leanStrList(vo) + "\n")
+
+	// --- reject reasons
+	ec := x.consts("errors.go")
+	var rr []string
+	for k, v := range ec {
+		if strings.HasPrefix(k, "rejectReason") {
+			rr = append(rr, fmt.Sprintf("(%s, %s)", strconv.Quote(strings.TrimPrefix(k, "rejectReason")), v))
+		}
+	}
+	sort.Strings(rr)
+	sb.WriteString("\n/-- errors.go reject reason constants -/\ndef rejectReasons : List (String × Nat) := [" + strings.Join(rr, ", ") + "]\n")
+
+	// --- peer timer factor(s)
+	pf := x.peerFactors()
+	sort.Strings(pf)
+	sb.WriteString("\n/-- float literals multiplying HeartBtInt when the peer timer is armed -/\ndef peerTimerFactors : List String := " + leanStrList(pf) + "\n")
+
+	// --- header / trailer tags (tag.go)
+	tc := x.consts("tag.go")
+	tagList := func(fn string) []string {
+		var out []string
+		for _, nm := range x.caseList("tag.go", "Tag", fn) {
+			if v, ok := tc[nm]; ok {
+				out = append(out, v)
+			}
+		}
+		sort.Slice(out, func(i, j int) bool { a, _ := strconv.Atoi(out[i]); b, _ := strconv.Atoi(out[j]); return a < b })
+		return out
+	}
+	hd, tr := tagList("IsHeader"), tagList("IsTrailer")
+	if len(hd) == 0 {
+		x.missing("Tag.IsHeader", "C10", "C11")
+	}
+	sb.WriteString("\n/-- tag.go Tag.IsHeader / Tag.IsTrailer -/\ndef headerTags : List Nat := [" + strings.Join(hd, ", ") + "]\ndef trailerTags : List Nat := [" + strings.Join(tr, ", ") + "]\n")
+
+	sb.WriteString("\nend Qfx.Gen\n")
+	if err := os.WriteFile(filepath.Join(dir, "Facts.lean"), []byte(sb.String()), 0o644); err != nil {
+		panic(err)
+	}
+	b, _ := json.MarshalIndent(x.man, "", " ")
+	os.WriteFile(filepath.Join(dir, "gen_manifest.json"), b, 0o644)
+}
